@@ -96,8 +96,10 @@ def run_json(argv, timeout=120, env=None, cwd=None, input_bytes=None):
                 pass
     if p.returncode < 0:
         res = res or {}
-        res["class"] = f"signal({-p.returncode})"
         res["stderr"] = p.stderr.decode("utf-8", "replace")[-2000:]
+        # the harness's crash reporter names the sim thread the signal was raised in
+        m = re.search(r"CRASH signal=\d+ thread=([^\n]*)", res["stderr"])
+        res["class"] = f"signal({-p.returncode})" + (f"@{m.group(1)}" if m else "")
     elif res is None:
         res = {"class": f"nojson(exit {p.returncode})",
                "stderr": p.stderr.decode("utf-8", "replace")[-2000:]}
